@@ -79,20 +79,29 @@ def lookupNode (t : List Node) (l : Loc) : Option (Char × Bytes) :=
   | some n => some n.2
   | none => none
 
-/-- the sentinels outside the target, and the target directory itself -/
-def outsideSentinels : List Node :=
+/-- the sentinels beside and above the target -/
+def besideSentinels : List Node :=
   [(["side".toList], 'f', "S0".toUTF8.toList),
    (["up".toList], 'd', []),
-   (["up".toList, "side".toList], 'f', "S1".toUTF8.toList),
-   (["up".toList, "target.ufo".toList], 'd', [])]
+   (["up".toList, "side".toList], 'f', "S1".toUTF8.toList)]
 
-/-- the sandbox before the save (the parts of the target the harness reports) -/
-def sentinelTree : List Node :=
-  outsideSentinels ++
-  [(["up".toList, "target.ufo".toList, "data".toList], 'd', []),
-   (["up".toList, "target.ufo".toList, "data".toList, "stale".toList], 'f', "S3".toUTF8.toList),
-   (["up".toList, "target.ufo".toList, "old".toList], 'd', []),
-   (["up".toList, "target.ufo".toList, "old".toList, "s".toList], 'f', "S2".toUTF8.toList)]
+/-- … and the target directory itself (present after every successful save) -/
+def outsideSentinels : List Node :=
+  besideSentinels ++ [(["up".toList, "target.ufo".toList], 'd', [])]
+
+/-- the sandbox before the save.  Variant `'S'`: the target holds sentinels; `'A'`: the target is
+    absent; `'E'`: the target is an empty directory. -/
+def sentinelTreeOf (variant : Char) : List Node :=
+  if variant == 'A' then besideSentinels
+  else if variant == 'E' then outsideSentinels
+  else
+    outsideSentinels ++
+    [(["up".toList, "target.ufo".toList, "data".toList], 'd', []),
+     (["up".toList, "target.ufo".toList, "data".toList, "stale".toList], 'f', "S3".toUTF8.toList),
+     (["up".toList, "target.ufo".toList, "old".toList], 'd', []),
+     (["up".toList, "target.ufo".toList, "old".toList, "s".toList], 'f', "S2".toUTF8.toList)]
+
+def sentinelTree : List Node := sentinelTreeOf 'S'
 
 def sameNodes (a b : List Node) : Bool :=
   a.all (fun n => b.contains n) && b.all (fun n => a.contains n)
@@ -117,12 +126,12 @@ def culprits (base : Loc) (es : List Entry) : List (Key × List String) :=
 
 /-- the save clauses of the property, on one observed `Font::save`:
     `res` = `'k'` ok, `'e'` error, `'p'` panic. -/
-def saveFailures (dirName : List Char) (es : List Entry) (res : Char) (tree : List Node) : List String :=
+def saveFailures (variant : Char) (dirName : List Char) (es : List Entry) (res : Char) (tree : List Node) : List String :=
   let base : Loc := ["up".toList, "target.ufo".toList, dirName]
   if es.any (fun e => e.2.isNone) then
     -- "an unreadable or invalid entry makes save fail before anything on disk is touched"
     (if res == 'e' then [] else [failure "error-entry-save-not-refused" []]) ++
-    (if sameNodes tree sentinelTree then [] else [failure "error-entry-save-touched-disk" []])
+    (if sameNodes tree (sentinelTreeOf variant) then [] else [failure "error-entry-save-touched-disk" []])
   else
     let cs := culprits base es
     if res != 'k' then
